@@ -1,18 +1,23 @@
 //! Data types, operator tables and the type-erased expression handle that the
 //! workload operates on. Everything here goes through exmex' public API only.
+//!
+//! Several *kinds* share one data type but use different operator tables of
+//! equal length (Sim/Sim2/Sim3 over `SimNum`, F64/F64b over `f64`): a process
+//! that uses more than one table for one number type is a normal deployment,
+//! and any process-global cache keyed too coarsely shows up as cross-talk.
 
 use crate::prng::{derive, Rng};
 use crate::sched::{self, SEAM_CLONE, SEAM_DEBUG, SEAM_DEFAULT, SEAM_EQ, SEAM_FROMSTR, SEAM_OP, SEAM_SUBS};
 use exmex::prelude::*;
 use exmex::{
-    literal_matcher_from_pattern, BinOp, DeepEx, DiffDataType, ExResult,
-    FloatOpsFactory, MakeOperators, MatchLiteral, MissingOpMode, NumberMatcher, Operator, Val,
-    ValMatcher, ValOpsFactory,
+    literal_matcher_from_pattern, BinOp, DeepEx, DiffDataType, ExResult, FloatOpsFactory,
+    MakeOperators, MatchLiteral, MissingOpMode, NumberMatcher, Operator, Val, ValMatcher,
+    ValOpsFactory,
 };
 use serde::{Deserialize, Serialize};
 use std::fmt::{self, Debug};
 use std::str::FromStr;
-use std::sync::Arc;
+use std::sync::{Arc, OnceLock};
 
 #[derive(Clone, Copy, Debug, Serialize, Deserialize, PartialEq, Eq, Hash)]
 pub enum Kind {
@@ -21,8 +26,24 @@ pub enum Kind {
     Val,
     Bool,
     Sim,
+    Sim2,
+    Sim3,
+    F64b,
 }
-pub const ALL_KINDS: [Kind; 5] = [Kind::F64, Kind::F32, Kind::Val, Kind::Bool, Kind::Sim];
+pub const ALL_KINDS: [Kind; 8] = [
+    Kind::F64,
+    Kind::F32,
+    Kind::Val,
+    Kind::Bool,
+    Kind::Sim,
+    Kind::Sim2,
+    Kind::Sim3,
+    Kind::F64b,
+];
+
+pub fn kind_from_name(k: &str) -> Option<Kind> {
+    ALL_KINDS.iter().copied().find(|x| format!("{x:?}") == k)
+}
 
 #[derive(Clone, Copy, Debug, Serialize, Deserialize, PartialEq, Eq, Hash)]
 pub enum Form {
@@ -78,73 +99,165 @@ impl From<u8> for SimNum {
     }
 }
 
-fn s_add(a: SimNum, b: SimNum) -> SimNum {
-    sched::point(SEAM_OP);
-    SimNum(a.0.wrapping_add(b.0))
+macro_rules! sbin {
+    ($name:ident, |$a:ident, $b:ident| $body:expr) => {
+        fn $name($a: SimNum, $b: SimNum) -> SimNum {
+            sched::point(SEAM_OP);
+            let ($a, $b) = ($a.0, $b.0);
+            SimNum($body)
+        }
+    };
 }
-fn s_sub(a: SimNum, b: SimNum) -> SimNum {
-    sched::point(SEAM_OP);
-    SimNum(a.0.wrapping_sub(b.0))
+macro_rules! sun {
+    ($name:ident, |$a:ident| $body:expr) => {
+        fn $name($a: SimNum) -> SimNum {
+            sched::point(SEAM_OP);
+            let $a = $a.0;
+            SimNum($body)
+        }
+    };
 }
-fn s_mul(a: SimNum, b: SimNum) -> SimNum {
-    sched::point(SEAM_OP);
-    SimNum(a.0.wrapping_mul(b.0))
-}
-/// like the README's integer example: panics on division by zero
-fn s_div(a: SimNum, b: SimNum) -> SimNum {
-    sched::point(SEAM_OP);
-    SimNum(a.0.wrapping_div(b.0))
-}
-fn s_rem(a: SimNum, b: SimNum) -> SimNum {
-    sched::point(SEAM_OP);
-    SimNum(a.0.wrapping_rem(b.0))
-}
-fn s_pow(a: SimNum, b: SimNum) -> SimNum {
-    sched::point(SEAM_OP);
-    SimNum(a.0.wrapping_pow((b.0 & 7) as u32))
-}
-fn s_min(a: SimNum, b: SimNum) -> SimNum {
-    sched::point(SEAM_OP);
-    SimNum(a.0.min(b.0))
-}
-fn s_max(a: SimNum, b: SimNum) -> SimNum {
-    sched::point(SEAM_OP);
-    SimNum(a.0.max(b.0))
-}
-fn s_neg(a: SimNum) -> SimNum {
-    sched::point(SEAM_OP);
-    SimNum(a.0.wrapping_neg())
-}
-fn s_id(a: SimNum) -> SimNum {
-    sched::point(SEAM_OP);
-    a
-}
-fn s_sq(a: SimNum) -> SimNum {
-    sched::point(SEAM_OP);
-    SimNum(a.0.wrapping_mul(a.0))
-}
-fn s_inc(a: SimNum) -> SimNum {
-    sched::point(SEAM_OP);
-    SimNum(a.0.wrapping_add(1))
+sbin!(s_add, |a, b| a.wrapping_add(b));
+sbin!(s_sub, |a, b| a.wrapping_sub(b));
+sbin!(s_mul, |a, b| a.wrapping_mul(b));
+// like the README's integer example: panics on division by zero
+sbin!(s_div, |a, b| a.wrapping_div(b));
+sbin!(s_rem, |a, b| a.wrapping_rem(b));
+sbin!(s_pow, |a, b| a.wrapping_pow((b & 7) as u32));
+sbin!(s_min, |a, b| a.min(b));
+sbin!(s_max, |a, b| a.max(b));
+sbin!(s_lt, |a, b| (a < b) as i64);
+sbin!(s_le, |a, b| (a <= b) as i64);
+sbin!(s_gt, |a, b| (a > b) as i64);
+sbin!(s_eq, |a, b| (a == b) as i64);
+sbin!(s_and, |a, b| a & b);
+sbin!(s_land, |a, b| ((a != 0) && (b != 0)) as i64);
+sbin!(s_or, |a, b| a | b);
+sbin!(s_lor, |a, b| ((a != 0) || (b != 0)) as i64);
+sbin!(s_shl, |a, b| a.wrapping_shl((b & 15) as u32));
+sbin!(s_shr, |a, b| a.wrapping_shr((b & 15) as u32));
+sbin!(s_avg, |a, b| (a / 2).wrapping_add(b / 2));
+sun!(s_neg, |a| a.wrapping_neg());
+sun!(s_id, |a| a);
+sun!(s_sq, |a| a.wrapping_mul(a));
+sun!(s_cube, |a| a.wrapping_mul(a).wrapping_mul(a));
+sun!(s_inc, |a| a.wrapping_add(1));
+sun!(s_inc2, |a| a.wrapping_add(2));
+sun!(s_not, |a| !a);
+sun!(s_tw, |a| a.wrapping_mul(2));
+
+fn b(apply: fn(SimNum, SimNum) -> SimNum, prio: i64, is_commutative: bool) -> BinOp<SimNum> {
+    BinOp { apply, prio, is_commutative }
 }
 
+/// 13 operators; `*`/`**` and `<`/`<=` are prefix related.
 #[derive(Clone, Debug, PartialEq)]
 pub struct SimOps;
 impl MakeOperators<SimNum> for SimOps {
     fn make<'a>() -> Vec<Operator<'a, SimNum>> {
         vec![
-            Operator::make_bin("^", BinOp { apply: s_pow, prio: 4, is_commutative: false }),
-            Operator::make_bin("*", BinOp { apply: s_mul, prio: 2, is_commutative: true }),
-            Operator::make_bin("/", BinOp { apply: s_div, prio: 3, is_commutative: false }),
-            Operator::make_bin("%", BinOp { apply: s_rem, prio: 3, is_commutative: false }),
-            Operator::make_bin_unary("+", BinOp { apply: s_add, prio: 0, is_commutative: true }, s_id),
-            Operator::make_bin_unary("-", BinOp { apply: s_sub, prio: 1, is_commutative: false }, s_neg),
-            Operator::make_bin("min", BinOp { apply: s_min, prio: 0, is_commutative: false }),
-            Operator::make_bin("max", BinOp { apply: s_max, prio: 0, is_commutative: false }),
+            Operator::make_bin("**", b(s_pow, 4, false)),
+            Operator::make_bin("*", b(s_mul, 2, true)),
+            Operator::make_bin("/", b(s_div, 3, false)),
+            Operator::make_bin("%", b(s_rem, 3, false)),
+            Operator::make_bin_unary("+", b(s_add, 0, true), s_id),
+            Operator::make_bin_unary("-", b(s_sub, 1, false), s_neg),
+            Operator::make_bin("min", b(s_min, 0, false)),
+            Operator::make_bin("max", b(s_max, 0, false)),
             Operator::make_unary("sq", s_sq),
             Operator::make_unary("inc", s_inc),
             Operator::make_constant("TEN", SimNum(10)),
+            Operator::make_bin("<", b(s_lt, -1, false)),
+            Operator::make_bin("<=", b(s_le, -1, false)),
         ]
+    }
+}
+
+/// The same 13 representations as `SimOps` in another order with other
+/// priorities and meanings.
+#[derive(Clone, Debug, PartialEq)]
+pub struct SimOps2;
+impl MakeOperators<SimNum> for SimOps2 {
+    fn make<'a>() -> Vec<Operator<'a, SimNum>> {
+        vec![
+            Operator::make_bin("<=", b(s_gt, 1, false)),
+            Operator::make_constant("TEN", SimNum(7)),
+            Operator::make_unary("inc", s_inc2),
+            Operator::make_unary("sq", s_cube),
+            Operator::make_bin("max", b(s_min, 2, false)),
+            Operator::make_bin("min", b(s_avg, 2, false)),
+            Operator::make_bin_unary("-", b(s_sub, 3, false), s_neg),
+            Operator::make_bin_unary("+", b(s_add, 3, true), s_id),
+            Operator::make_bin("%", b(s_rem, 5, false)),
+            Operator::make_bin("/", b(s_div, 0, false)),
+            Operator::make_bin("*", b(s_add, 5, true)),
+            Operator::make_bin("**", b(s_mul, 0, true)),
+            Operator::make_bin("<", b(s_le, 1, false)),
+        ]
+    }
+}
+
+/// Also 13 operators, other names, more prefix relations.
+#[derive(Clone, Debug, PartialEq)]
+pub struct SimOps3;
+impl MakeOperators<SimNum> for SimOps3 {
+    fn make<'a>() -> Vec<Operator<'a, SimNum>> {
+        vec![
+            Operator::make_bin("&", b(s_and, 3, true)),
+            Operator::make_bin("&&", b(s_land, 1, true)),
+            Operator::make_bin("|", b(s_or, 2, true)),
+            Operator::make_bin("||", b(s_lor, 0, true)),
+            Operator::make_bin("<<", b(s_shl, 4, false)),
+            Operator::make_bin("<", b(s_lt, 1, false)),
+            Operator::make_bin(">>", b(s_shr, 4, false)),
+            Operator::make_bin(">", b(s_gt, 1, false)),
+            Operator::make_bin("==", b(s_eq, 1, true)),
+            Operator::make_unary("neg", s_neg),
+            Operator::make_unary("tw", s_tw),
+            Operator::make_unary("~", s_not),
+            Operator::make_constant("ONE", SimNum(1)),
+        ]
+    }
+}
+
+// ---------------------------------------------------------------------------------------------
+// a second operator table for f64 with exactly as many entries as the default one
+// ---------------------------------------------------------------------------------------------
+
+fn pad_names() -> &'static Vec<&'static str> {
+    static NAMES: OnceLock<Vec<&'static str>> = OnceLock::new();
+    NAMES.get_or_init(|| {
+        (0..64)
+            .map(|i| &*Box::leak(format!("pad{i:02}").into_boxed_str()))
+            .collect()
+    })
+}
+
+#[derive(Clone, Debug, PartialEq)]
+pub struct F64Ops2;
+impl MakeOperators<f64> for F64Ops2 {
+    fn make<'a>() -> Vec<Operator<'a, f64>> {
+        let mut v: Vec<Operator<'a, f64>> = vec![
+            Operator::make_bin("<=", BinOp { apply: |a, b| (a <= b) as u8 as f64, prio: 0, is_commutative: false }),
+            Operator::make_bin("**", BinOp { apply: |a: f64, b| a.powf(b), prio: 5, is_commutative: false }),
+            Operator::make_bin("<", BinOp { apply: |a, b| (a < b) as u8 as f64, prio: 0, is_commutative: false }),
+            Operator::make_bin("*", BinOp { apply: |a, b| a * b, prio: 3, is_commutative: true }),
+            Operator::make_bin("/", BinOp { apply: |a, b| a / b, prio: 3, is_commutative: false }),
+            Operator::make_bin_unary("+", BinOp { apply: |a, b| a + b, prio: 1, is_commutative: true }, |a| a),
+            Operator::make_bin_unary("-", BinOp { apply: |a, b| a - b, prio: 1, is_commutative: false }, |a: f64| -a),
+            Operator::make_bin("==", BinOp { apply: |a, b| (a == b) as u8 as f64, prio: 0, is_commutative: true }),
+            Operator::make_unary("dbl", |a| a * 2.0),
+            Operator::make_unary("half", |a| a / 2.0),
+            Operator::make_constant("K", 1.5),
+        ];
+        let want = FloatOpsFactory::<f64>::make().len();
+        let names = pad_names();
+        let mut i = 0;
+        while v.len() < want {
+            v.push(Operator::make_unary(names[i % names.len()], |a| a));
+            i += 1;
+        }
+        v
     }
 }
 
@@ -187,15 +300,10 @@ impl MakeOperators<B> for BoolOps {
 literal_matcher_from_pattern!(BoolMatcher, "^(true|false)");
 
 // ---------------------------------------------------------------------------------------------
-// Probe: what the harness needs to know about a data type
+// Probe (per data type) and KindSpec (data type + operator table + literal matcher)
 // ---------------------------------------------------------------------------------------------
 
 pub trait Probe: DiffDataType + Send + Sync + 'static {
-    type OF: MakeOperators<Self> + Debug + PartialEq + Send + Sync + 'static;
-    type LM: MatchLiteral + Debug + PartialEq + Send + Sync + 'static;
-    const UNARY: &'static [&'static str];
-    const BINARY: &'static [&'static str];
-    const SUBS: &'static [&'static str];
     fn palette(r: &mut Rng) -> Self;
     /// exact rendering (floats by bit pattern)
     fn show(&self) -> String;
@@ -228,11 +336,6 @@ fn pal_f64(r: &mut Rng) -> f64 {
 }
 
 impl Probe for f64 {
-    type OF = FloatOpsFactory<f64>;
-    type LM = NumberMatcher;
-    const UNARY: &'static [&'static str] = &["sin", "-", "exp", "abs", "nosuchop"];
-    const BINARY: &'static [&'static str] = &["+", "*", "/", "^", "min", "nosuchop"];
-    const SUBS: &'static [&'static str] = &["2*q", "sin(x)+w", "1.5", "(a-b)/c"];
     fn palette(r: &mut Rng) -> Self {
         pal_f64(r)
     }
@@ -241,11 +344,6 @@ impl Probe for f64 {
     }
 }
 impl Probe for f32 {
-    type OF = FloatOpsFactory<f32>;
-    type LM = NumberMatcher;
-    const UNARY: &'static [&'static str] = &["cos", "-", "sqrt", "signum"];
-    const BINARY: &'static [&'static str] = &["-", "*", "/", "max"];
-    const SUBS: &'static [&'static str] = &["q/2", "cos(y)", "3"];
     fn palette(r: &mut Rng) -> Self {
         pal_f64(r) as f32
     }
@@ -254,11 +352,6 @@ impl Probe for f32 {
     }
 }
 impl Probe for Val<i32, f64> {
-    type OF = ValOpsFactory<i32, f64>;
-    type LM = ValMatcher;
-    const UNARY: &'static [&'static str] = &["-", "to_float", "abs", "fact", "!"];
-    const BINARY: &'static [&'static str] = &["+", "*", "==", "if", "else", "%", "&&"];
-    const SUBS: &'static [&'static str] = &["2*q", "1 if q > 0 else 2", "[1,2,3]", "true"];
     fn palette(r: &mut Rng) -> Self {
         match r.below(8) {
             0 | 1 => Val::Int([0, 1, -1, 2, 3, 7, 12, -40][r.below(8)]),
@@ -283,11 +376,6 @@ impl Probe for Val<i32, f64> {
     }
 }
 impl Probe for B {
-    type OF = BoolOps;
-    type LM = BoolMatcher;
-    const UNARY: &'static [&'static str] = &["!", "id"];
-    const BINARY: &'static [&'static str] = &["&&", "||", "==", "xor"];
-    const SUBS: &'static [&'static str] = &["q||r", "!q", "true"];
     fn palette(r: &mut Rng) -> Self {
         B(r.chance(1, 2))
     }
@@ -296,11 +384,6 @@ impl Probe for B {
     }
 }
 impl Probe for SimNum {
-    type OF = SimOps;
-    type LM = NumberMatcher;
-    const UNARY: &'static [&'static str] = &["-", "sq", "inc"];
-    const BINARY: &'static [&'static str] = &["+", "*", "/", "%", "min"];
-    const SUBS: &'static [&'static str] = &["2*q", "sq(q)-r", "7", "q/r"];
     fn palette(r: &mut Rng) -> Self {
         SimNum(match r.below(14) {
             0 => 0,
@@ -318,6 +401,91 @@ impl Probe for SimNum {
         format!("{}", self.0)
     }
 }
+
+pub trait KindSpec: Send + Sync + 'static {
+    type T: Probe;
+    type OF: MakeOperators<Self::T> + Debug + PartialEq + Send + Sync + 'static;
+    type LM: MatchLiteral + Debug + PartialEq + Send + Sync + 'static;
+    const UNARY: &'static [&'static str];
+    const BINARY: &'static [&'static str];
+    const SUBS: &'static [&'static str];
+}
+
+pub struct KF64;
+impl KindSpec for KF64 {
+    type T = f64;
+    type OF = FloatOpsFactory<f64>;
+    type LM = NumberMatcher;
+    const UNARY: &'static [&'static str] = &["sin", "-", "exp", "abs", "nosuchop"];
+    const BINARY: &'static [&'static str] = &["+", "*", "/", "^", "min", "nosuchop"];
+    const SUBS: &'static [&'static str] = &["2*q", "sin(x)+w", "1.5", "(a-b)/c"];
+}
+pub struct KF64b;
+impl KindSpec for KF64b {
+    type T = f64;
+    type OF = F64Ops2;
+    type LM = NumberMatcher;
+    const UNARY: &'static [&'static str] = &["dbl", "-", "half", "pad03"];
+    const BINARY: &'static [&'static str] = &["+", "*", "**", "<=", "<"];
+    const SUBS: &'static [&'static str] = &["2*q", "dbl(x)<=w", "1.5", "a**b"];
+}
+pub struct KF32;
+impl KindSpec for KF32 {
+    type T = f32;
+    type OF = FloatOpsFactory<f32>;
+    type LM = NumberMatcher;
+    const UNARY: &'static [&'static str] = &["cos", "-", "sqrt", "signum"];
+    const BINARY: &'static [&'static str] = &["-", "*", "/", "max"];
+    const SUBS: &'static [&'static str] = &["q/2", "cos(y)", "3"];
+}
+pub struct KVal;
+impl KindSpec for KVal {
+    type T = Val<i32, f64>;
+    type OF = ValOpsFactory<i32, f64>;
+    type LM = ValMatcher;
+    const UNARY: &'static [&'static str] = &["-", "to_float", "abs", "fact", "!"];
+    const BINARY: &'static [&'static str] = &["+", "*", "==", "if", "else", "%", "&&"];
+    const SUBS: &'static [&'static str] = &["2*q", "1 if q > 0 else 2", "[1,2,3]", "true"];
+}
+pub struct KBool;
+impl KindSpec for KBool {
+    type T = B;
+    type OF = BoolOps;
+    type LM = BoolMatcher;
+    const UNARY: &'static [&'static str] = &["!", "id"];
+    const BINARY: &'static [&'static str] = &["&&", "||", "==", "xor"];
+    const SUBS: &'static [&'static str] = &["q||r", "!q", "true"];
+}
+pub struct KSim;
+impl KindSpec for KSim {
+    type T = SimNum;
+    type OF = SimOps;
+    type LM = NumberMatcher;
+    const UNARY: &'static [&'static str] = &["-", "sq", "inc"];
+    const BINARY: &'static [&'static str] = &["+", "*", "/", "%", "min", "**", "<="];
+    const SUBS: &'static [&'static str] = &["2*q", "sq(q)-r", "7", "q/r", "q**2<=r"];
+}
+pub struct KSim2;
+impl KindSpec for KSim2 {
+    type T = SimNum;
+    type OF = SimOps2;
+    type LM = NumberMatcher;
+    const UNARY: &'static [&'static str] = &["-", "sq", "inc"];
+    const BINARY: &'static [&'static str] = &["+", "*", "/", "%", "min", "**", "<="];
+    const SUBS: &'static [&'static str] = &["2*q", "sq(q)-r", "7", "q/r", "q**2<=r"];
+}
+pub struct KSim3;
+impl KindSpec for KSim3 {
+    type T = SimNum;
+    type OF = SimOps3;
+    type LM = NumberMatcher;
+    const UNARY: &'static [&'static str] = &["neg", "tw", "~"];
+    const BINARY: &'static [&'static str] = &["&", "&&", "|", "<<", "<", "=="];
+    const SUBS: &'static [&'static str] = &["2<<q", "tw(q)&&r", "7", "q>>r|ONE"];
+}
+
+type Fx<K> = FlatEx<<K as KindSpec>::T, <K as KindSpec>::OF, <K as KindSpec>::LM>;
+type Dx<K> = DeepEx<'static, <K as KindSpec>::T, <K as KindSpec>::OF, <K as KindSpec>::LM>;
 
 // ---------------------------------------------------------------------------------------------
 // Observations
@@ -359,29 +527,36 @@ where
     }
 }
 
-fn inspect_generic<T, E>(e: &E) -> String
+/// Everything the public accessors show. `with_debug` adds the `{:?}` rendering, which
+/// exposes every field; it is only used where both sides of a comparison have the
+/// same history (right after a parse), so that a semantically invisible cache
+/// that happens to be visible in `Debug` cannot raise an alarm.
+fn inspect_generic<T, E>(e: &E, with_debug: bool) -> String
 where
     T: Probe,
     <T as FromStr>::Err: Debug,
     E: Express<'static, T> + Debug + fmt::Display,
 {
-    format!(
-        "unparse={}|vars={:?}|un={:?}|bin={:?}|ops={:?}|display={}|debug={:?}",
+    let mut s = format!(
+        "unparse={}|vars={:?}|un={:?}|bin={:?}|ops={:?}|display={}",
         e.unparse(),
         e.var_names(),
         e.unary_reprs(),
         e.binary_reprs(),
         e.operator_reprs(),
         e,
-        e
-    )
+    );
+    if with_debug {
+        s.push_str(&format!("|debug={e:?}"));
+    }
+    s
 }
 
-fn derive_generic<T, E>(e: &E, which: u32) -> String
+fn derive_generic<K, E>(e: &E, which: u32) -> String
 where
-    T: Probe,
-    <T as FromStr>::Err: Debug,
-    E: Express<'static, T> + Calculate<'static, T> + Differentiate<'static, T> + Clone + Debug,
+    K: KindSpec,
+    <K::T as FromStr>::Err: Debug,
+    E: Express<'static, K::T> + Calculate<'static, K::T> + Differentiate<'static, K::T> + Clone + Debug,
 {
     let sel = which % 8;
     let param = (which / 8) as usize;
@@ -389,16 +564,16 @@ where
     let var = if nv == 0 { param % 2 } else { param % (nv + 1) };
     let pt = 1000 + which;
     match sel {
-        0 | 1 => obs_expr::<T, E>(e.clone().partial(var), pt),
-        2 => obs_expr::<T, E>(e.clone().operate_unary(T::UNARY[param % T::UNARY.len()]), pt),
-        3 => obs_expr::<T, E>(
+        0 | 1 => obs_expr::<K::T, E>(e.clone().partial(var), pt),
+        2 => obs_expr::<K::T, E>(e.clone().operate_unary(K::UNARY[param % K::UNARY.len()]), pt),
+        3 => obs_expr::<K::T, E>(
             e.clone()
-                .operate_binary(e.clone(), T::BINARY[param % T::BINARY.len()]),
+                .operate_binary(e.clone(), K::BINARY[param % K::BINARY.len()]),
             pt,
         ),
         4 => {
             let target = e.var_names().get(param % nv.max(1)).cloned();
-            let sub_text: &'static str = T::SUBS[param % T::SUBS.len()];
+            let sub_text: &'static str = K::SUBS[param % K::SUBS.len()];
             let mut f = |name: &str| -> Option<E> {
                 sched::point(SEAM_SUBS);
                 if Some(name) == target.as_deref() {
@@ -407,14 +582,14 @@ where
                     None
                 }
             };
-            obs_expr::<T, E>(e.clone().subs(&mut f), pt)
+            obs_expr::<K::T, E>(e.clone().subs(&mut f), pt)
         }
-        5 => obs_expr::<T, E>(e.clone().partial_nth(var, 2), pt),
-        6 => obs_expr::<T, E>(
+        5 => obs_expr::<K::T, E>(e.clone().partial_nth(var, 2), pt),
+        6 => obs_expr::<K::T, E>(
             e.clone().partial_relaxed(var, MissingOpMode::PerOperand),
             pt,
         ),
-        _ => obs_expr::<T, E>(
+        _ => obs_expr::<K::T, E>(
             e.clone()
                 .partial_iter([var, param % (nv.max(1))].into_iter()),
             pt,
@@ -426,42 +601,58 @@ where
 /// the surface C20 speaks about.
 pub trait Handle: Send + Sync {
     fn eval(&self, point: u32, mode: u8, delta: i8) -> String;
+    /// public accessors only (history independent for a correct implementation)
     fn inspect(&self) -> String;
+    /// accessors + `{:?}`; only meaningful right after a parse
+    fn inspect_full(&self) -> String;
     fn convert(&self) -> String;
     fn derive(&self, which: u32) -> String;
     fn serde_rt(&self) -> String;
-    /// full Debug rendering, the immutability witness
-    fn snapshot(&self) -> String;
-    /// compares with the retained pristine clone (PartialEq, if reflexive) and its rendering
+    /// compares with the retained pristine clone (PartialEq, if reflexive) and the accessor rendering
     fn unchanged(&self) -> Result<(), String>;
 }
 
-pub struct FlatH<T: Probe>
+pub struct FlatH<K: KindSpec>
 where
-    <T as FromStr>::Err: Debug,
+    <K::T as FromStr>::Err: Debug,
 {
-    ex: FlatEx<T, T::OF, T::LM>,
-    pristine: FlatEx<T, T::OF, T::LM>,
+    ex: Fx<K>,
+    pristine: Fx<K>,
     snap: String,
     reflexive: bool,
 }
-pub struct DeepH<T: Probe>
+pub struct DeepH<K: KindSpec>
 where
-    <T as FromStr>::Err: Debug,
+    <K::T as FromStr>::Err: Debug,
 {
-    ex: DeepEx<'static, T, T::OF, T::LM>,
-    pristine: DeepEx<'static, T, T::OF, T::LM>,
+    ex: Dx<K>,
+    pristine: Dx<K>,
     snap: String,
     reflexive: bool,
 }
 
-impl<T: Probe> Handle for FlatH<T>
+fn eval_all_modes<K: KindSpec>(e: &Fx<K>, point: u32) -> String
 where
-    <T as FromStr>::Err: Debug,
+    <K::T as FromStr>::Err: Debug,
+{
+    let n = e.var_names().len();
+    let v = || points::<K::T>(n, point);
+    format!(
+        "eval={}|relaxed={}|vec={}|iter={}",
+        show_res(e.eval(&v())),
+        show_res(e.eval_relaxed(&v())),
+        show_res(e.eval_vec(v())),
+        show_res(e.eval_iter(v().into_iter()))
+    )
+}
+
+impl<K: KindSpec> Handle for FlatH<K>
+where
+    <K::T as FromStr>::Err: Debug,
 {
     fn eval(&self, point: u32, mode: u8, delta: i8) -> String {
         let n = n_for(self.ex.var_names().len(), delta);
-        let vars = points::<T>(n, point);
+        let vars = points::<K::T>(n, point);
         show_res(match mode % 4 {
             0 => self.ex.eval(&vars),
             1 => self.ex.eval_relaxed(&vars),
@@ -472,7 +663,14 @@ where
     fn inspect(&self) -> String {
         format!(
             "{}|ordered={:?}",
-            inspect_generic::<T, _>(&self.ex),
+            inspect_generic::<K::T, _>(&self.ex, false),
+            self.ex.var_indices_ordered()
+        )
+    }
+    fn inspect_full(&self) -> String {
+        format!(
+            "{}|ordered={:?}",
+            inspect_generic::<K::T, _>(&self.ex, true),
             self.ex.var_indices_ordered()
         )
     }
@@ -483,91 +681,104 @@ where
                 let a = format!(
                     "deep:{}|{}",
                     d.unparse(),
-                    show_res(d.eval(&points::<T>(nv, 77)))
+                    show_res(d.eval(&points::<K::T>(nv, 77)))
                 );
-                let b = obs_expr::<T, _>(FlatEx::<T, T::OF, T::LM>::from_deepex(d), 77);
+                let b = obs_expr::<K::T, _>(Fx::<K>::from_deepex(d), 77);
                 format!("{a}|back:{b}")
             }
             Err(e) => format!("err:{}", e.msg()),
         }
     }
     fn derive(&self, which: u32) -> String {
-        if which % 16 == 15 {
-            // fold a clone again: FlatEx::compile(&mut self) on a copy must not touch the original
+        if which % 16 >= 14 {
+            // a history on a copy: clone -> (evaluate) -> compile() -> evaluate in every mode.
+            // `FlatEx::compile(&mut self)` is public; folding a copy must neither touch the
+            // original nor be confused by anything the original or the copy did before.
             let mut c = self.ex.clone();
+            let pt = 2000 + which;
+            let before = if which % 16 == 15 { eval_all_modes::<K>(&c, pt) } else { String::new() };
             c.compile();
-            return format!("recompiled:{:?}", c);
+            return format!(
+                "recompiled:{}|before={before}|after={}|again={}",
+                inspect_generic::<K::T, _>(&c, false),
+                eval_all_modes::<K>(&c, pt),
+                eval_all_modes::<K>(&c, pt + 1)
+            );
         }
-        derive_generic::<T, _>(&self.ex, which)
+        derive_generic::<K, _>(&self.ex, which)
     }
     fn serde_rt(&self) -> String {
         match serde_json::to_string(&self.ex) {
             Ok(s) => {
-                let back = serde_json::from_str::<FlatEx<T, T::OF, T::LM>>(&s);
+                let back = serde_json::from_str::<Fx<K>>(&s);
                 match back {
-                    Ok(e) => format!("json={s}|{}", obs_expr::<T, _>(Ok(e), 99)),
+                    Ok(e) => format!("json={s}|{}", obs_expr::<K::T, _>(Ok(e), 99)),
                     Err(e) => format!("json={s}|deerr:{e}"),
                 }
             }
             Err(e) => format!("sererr:{e}"),
         }
     }
-    fn snapshot(&self) -> String {
-        format!("{:?}", self.ex)
-    }
     fn unchanged(&self) -> Result<(), String> {
-        let now = crate::run::canonical(&format!("{:?}", self.ex));
+        let now = self.inspect();
         if now != self.snap {
-            return Err(format!("debug rendering changed: before={} after={}", self.snap, now));
+            return Err(format!("public accessors changed: before={} after={}", self.snap, now));
         }
         if self.reflexive && self.ex != self.pristine {
-            return Err("expression != its pristine clone (PartialEq)".to_string());
+            return Err(format!(
+                "expression != its pristine clone (PartialEq); now={:?} pristine={:?}",
+                self.ex, self.pristine
+            ));
         }
         Ok(())
     }
 }
 
-impl<T: Probe> Handle for DeepH<T>
+impl<K: KindSpec> Handle for DeepH<K>
 where
-    <T as FromStr>::Err: Debug,
+    <K::T as FromStr>::Err: Debug,
 {
     fn eval(&self, point: u32, mode: u8, delta: i8) -> String {
         let n = n_for(self.ex.var_names().len(), delta);
-        let vars = points::<T>(n, point);
+        let vars = points::<K::T>(n, point);
         show_res(match mode % 2 {
             0 => self.ex.eval(&vars),
             _ => self.ex.eval_relaxed(&vars),
         })
     }
     fn inspect(&self) -> String {
-        inspect_generic::<T, _>(&self.ex)
+        inspect_generic::<K::T, _>(&self.ex, false)
+    }
+    fn inspect_full(&self) -> String {
+        inspect_generic::<K::T, _>(&self.ex, true)
     }
     fn convert(&self) -> String {
         let nv = self.ex.var_names().len();
-        match FlatEx::<T, T::OF, T::LM>::from_deepex(self.ex.clone()) {
+        match Fx::<K>::from_deepex(self.ex.clone()) {
             Ok(f) => {
                 let a = format!(
-                    "flat:{}|{}",
+                    "flat:{}|{}|{}",
                     f.unparse(),
-                    show_res(f.eval(&points::<T>(nv, 77)))
+                    show_res(f.eval(&points::<K::T>(nv, 77))),
+                    show_res(f.eval_vec(points::<K::T>(nv, 78)))
                 );
-                let b = obs_expr::<T, _>(f.to_deepex(), 77);
+                let b = obs_expr::<K::T, _>(f.to_deepex(), 77);
                 format!("{a}|back:{b}")
             }
             Err(e) => format!("err:{}", e.msg()),
         }
     }
     fn derive(&self, which: u32) -> String {
-        derive_generic::<T, _>(&self.ex, which)
+        derive_generic::<K, _>(&self.ex, which)
     }
     fn serde_rt(&self) -> String {
         // serde is implemented for the flat form only; go through it
-        match FlatEx::<T, T::OF, T::LM>::from_deepex(self.ex.clone()) {
+        match Fx::<K>::from_deepex(self.ex.clone()) {
             Ok(f) => match serde_json::to_string(&f) {
                 Ok(s) => format!(
                     "json={s}|{}",
-                    match serde_json::from_str::<FlatEx<T, T::OF, T::LM>>(&s) {
-                        Ok(e) => obs_expr::<T, _>(Ok(e), 99),
+                    match serde_json::from_str::<Fx<K>>(&s) {
+                        Ok(e) => obs_expr::<K::T, _>(Ok(e), 99),
                         Err(e) => format!("deerr:{e}"),
                     }
                 ),
@@ -576,16 +787,16 @@ where
             Err(e) => format!("err:{}", e.msg()),
         }
     }
-    fn snapshot(&self) -> String {
-        format!("{:?}", self.ex)
-    }
     fn unchanged(&self) -> Result<(), String> {
-        let now = crate::run::canonical(&format!("{:?}", self.ex));
+        let now = self.inspect();
         if now != self.snap {
-            return Err(format!("debug rendering changed: before={} after={}", self.snap, now));
+            return Err(format!("public accessors changed: before={} after={}", self.snap, now));
         }
         if self.reflexive && self.ex != self.pristine {
-            return Err("expression != its pristine clone (PartialEq)".to_string());
+            return Err(format!(
+                "expression != its pristine clone (PartialEq); now={:?} pristine={:?}",
+                self.ex, self.pristine
+            ));
         }
         Ok(())
     }
@@ -595,43 +806,47 @@ fn leak(text: &str) -> &'static str {
     Box::leak(text.to_string().into_boxed_str())
 }
 
-fn make_t<T: Probe>(form: Form, text: &str, compile: bool) -> Result<Arc<dyn Handle>, String>
+fn make_k<K: KindSpec>(form: Form, text: &str, compile: bool) -> Result<Arc<dyn Handle>, String>
 where
-    <T as FromStr>::Err: Debug,
+    <K::T as FromStr>::Err: Debug,
 {
     match form {
         Form::Flat => {
             let ex = if compile {
-                FlatEx::<T, T::OF, T::LM>::parse(text)
+                Fx::<K>::parse(text)
             } else {
-                FlatEx::<T, T::OF, T::LM>::parse_wo_compile(text)
+                Fx::<K>::parse_wo_compile(text)
             }
             .map_err(|e| e.msg().to_string())?;
             let pristine = ex.clone();
-            let snap = crate::run::canonical(&format!("{ex:?}"));
             #[allow(clippy::eq_op)]
             let reflexive = pristine == pristine;
-            Ok(Arc::new(FlatH::<T> { ex, pristine, snap, reflexive }))
+            let mut h = FlatH::<K> { ex, pristine, snap: String::new(), reflexive };
+            h.snap = h.inspect();
+            Ok(Arc::new(h))
         }
         Form::Deep => {
-            let ex = DeepEx::<'static, T, T::OF, T::LM>::parse(leak(text))
-                .map_err(|e| e.msg().to_string())?;
+            let ex = Dx::<K>::parse(leak(text)).map_err(|e| e.msg().to_string())?;
             let pristine = ex.clone();
-            let snap = crate::run::canonical(&format!("{ex:?}"));
             #[allow(clippy::eq_op)]
             let reflexive = pristine == pristine;
-            Ok(Arc::new(DeepH::<T> { ex, pristine, snap, reflexive }))
+            let mut h = DeepH::<K> { ex, pristine, snap: String::new(), reflexive };
+            h.snap = h.inspect();
+            Ok(Arc::new(h))
         }
     }
 }
 
 pub fn make_handle(kind: Kind, form: Form, text: &str, compile: bool) -> Result<Arc<dyn Handle>, String> {
     match kind {
-        Kind::F64 => make_t::<f64>(form, text, compile),
-        Kind::F32 => make_t::<f32>(form, text, compile),
-        Kind::Val => make_t::<Val<i32, f64>>(form, text, compile),
-        Kind::Bool => make_t::<B>(form, text, compile),
-        Kind::Sim => make_t::<SimNum>(form, text, compile),
+        Kind::F64 => make_k::<KF64>(form, text, compile),
+        Kind::F64b => make_k::<KF64b>(form, text, compile),
+        Kind::F32 => make_k::<KF32>(form, text, compile),
+        Kind::Val => make_k::<KVal>(form, text, compile),
+        Kind::Bool => make_k::<KBool>(form, text, compile),
+        Kind::Sim => make_k::<KSim>(form, text, compile),
+        Kind::Sim2 => make_k::<KSim2>(form, text, compile),
+        Kind::Sim3 => make_k::<KSim3>(form, text, compile),
     }
 }
 
